@@ -21,7 +21,7 @@ def mk(kind, f, comment=''):
 def gen_preamble(rng):
     """returns (entries, attachments, meta) — acyclic by construction unless meta says otherwise"""
     nvars = rng.randint(1, 5)
-    names = ['v%d' % i for i in range(nvars)]
+    names = rng.sample(['v0', 'v01', 'bin', 'bin_dirs', 'lib', 'libexec', 'foo', 'foo_x', 'a', 'ab'], nvars)
     entries = []
     meta = {'wf': True, 'twice': False, 'err': None}
     lit = ['/usr/bin', '/{,usr/}bin', 'x', 'y', '/opt/', 'lib{,32,64}', '*-linux-gnu*', '/', 'a/']
@@ -43,6 +43,20 @@ def gen_preamble(rng):
         if rng.random() < 0.35:
             extra = [rng.choice(lit) + ('@{%s}' % rng.choice(names[:i]) if i > 0 and rng.random() < 0.5 else '')]
             entries.append(mk('variable', [n, extra, False]))
+    # definitions in any order in the file (a += stays after its own =): forward references are legal
+    groups, cur = [], []
+    for e in entries:
+        if e['f'][2]:
+            if cur:
+                groups.append(cur)
+            cur = [e]
+        else:
+            cur.append(e)
+    if cur:
+        groups.append(cur)
+    if rng.random() < 0.5:
+        rng.shuffle(groups)
+    entries = [e for g_ in groups for e in g_]
     # other preamble rules, interleaved
     others = [mk('comment', [], ' c%d' % i) for i in range(rng.randint(0, 3))]
     others += [mk('abi', ['abi/4.0', True])] if rng.random() < 0.7 else []
@@ -96,6 +110,34 @@ def expand(vars_, v, depth=0):
     for val in vars_[name]:
         out += expand(vars_, v[:m.start()] + val + v[m.end():], depth + 1)
     return out
+
+
+def coupled(vars_, v, depth=0):
+    """K_sameVariableTwice, transitively: some multi-valued variable is reached through two different
+    reference occurrences while `v` is expanded (the tool substitutes all occurrences with the same value)"""
+    from collections import Counter
+
+    def occ(val, d):
+        c = Counter()
+        if d > 30:
+            return c
+        for name in REF.findall(val):
+            c[name] += 1
+            best = Counter()
+            for x in vars_.get(name, []):
+                o = occ(x, d + 1)
+                for k, n_ in o.items():
+                    best[k] = max(best[k], n_)
+            c.update(best)
+        return c
+    for name, n_ in occ(v, 0).items():
+        if n_ >= 2:
+            try:
+                if len(set(expand(vars_, '@{%s}' % name))) >= 2:
+                    return True
+            except (KeyError, RecursionError):
+                return True
+    return False
 
 
 def norm(v):
@@ -178,6 +220,9 @@ def run(ctx):
                 vars_.setdefault(e['f'][0], [])
                 vars_[e['f'][0]] += e['f'][1]
         fails = []
+        if any(coupled(vars_, v) for vals in vars_.values() for v in vals) or any(coupled(vars_, v) for v in att):
+            nj -= 1
+            continue
         if not o.startswith('ok\t'):
             fails.append('unexpected error')
         else:
